@@ -540,7 +540,9 @@ _rb_chunk_reclaim(struct qb_ringbuffer_s * rb)
 
 	old_read_pt = rb->shared_hdr->read_pt;
 	chunk_magic = QB_RB_CHUNK_MAGIC_GET(rb, old_read_pt);
-	if (chunk_magic != QB_RB_CHUNK_MAGIC) {
+	if (old_read_pt == rb->shared_hdr->write_pt ||
+	    chunk_magic != QB_RB_CHUNK_MAGIC) {
+		/* empty (whatever stale data sits there), or not committed yet */
 		errno = EINVAL;
 		return -errno;
 	}
@@ -615,7 +617,8 @@ qb_rb_chunk_peek(struct qb_ringbuffer_s * rb, void **data_out, int32_t timeout)
 	}
 	read_pt = rb->shared_hdr->read_pt;
 	chunk_magic = QB_RB_CHUNK_MAGIC_GET(rb, read_pt);
-	if (chunk_magic != QB_RB_CHUNK_MAGIC) {
+	if (read_pt == rb->shared_hdr->write_pt ||
+	    chunk_magic != QB_RB_CHUNK_MAGIC) {
 		if (rb->notifier.post_fn) {
 			(void)rb->notifier.post_fn(rb->notifier.instance, res);
 		}
@@ -656,7 +659,8 @@ qb_rb_chunk_read(struct qb_ringbuffer_s * rb, void *data_out, size_t len,
 	read_pt = rb->shared_hdr->read_pt;
 	chunk_magic = QB_RB_CHUNK_MAGIC_GET(rb, read_pt);
 
-	if (chunk_magic != QB_RB_CHUNK_MAGIC) {
+	if (read_pt == rb->shared_hdr->write_pt ||
+	    chunk_magic != QB_RB_CHUNK_MAGIC) {
 		if (rb->notifier.timedwait_fn == NULL) {
 			return -ETIMEDOUT;
 		} else {
